@@ -57,6 +57,10 @@ class _H(Hooks):
     unroll = 1
 
 
+class _H2(Hooks):
+    unroll = 2
+
+
 def _norm_atom(a):
     a = re.sub(r"@\d+", "", a)
     a = re.sub(r"#L\d+", "#L", a)
@@ -67,14 +71,22 @@ def _norm_atom(a):
 _cache = {}
 
 
-def table(fi, max_paths=4000):
-    key = (fi.module.repo.root, fi.key)
+def table(fi, max_paths=4000, unroll=1):
+    key = (fi.module.repo.root, fi.key, unroll)
     if key not in _cache:
         try:
-            _cache[key] = Evaluator(_H(), max_paths=max_paths).paths(fi.node)
+            _cache[key] = Evaluator(_H2() if unroll == 2 else _H(), max_paths=max_paths if unroll == 1 else 600).paths(fi.node)
         except (AnalysisError, RecursionError) as e:
             _cache[key] = e
     return _cache[key]
+
+
+def tables(cur_f, ref_f):
+    """deepest unrolling both sides can afford"""
+    a, b = table(cur_f, unroll=2), table(ref_f, unroll=2)
+    if isinstance(a, Exception) or isinstance(b, Exception):
+        a, b = table(cur_f), table(ref_f)
+    return a, b
 
 
 _dump = {}
@@ -287,9 +299,21 @@ def refinement_findings(repo, short, qualname):
         return []
     if _same(cur_f, ref_f):
         return []
-    ct, rt = table(cur_f), table(ref_f)
+    ct, rt = tables(cur_f, ref_f)
     if isinstance(ct, Exception) or isinstance(rt, Exception):
         return []
+    return compare_tables(ct, rt)
+
+
+def block_table(stmts, unroll=1, max_paths=4000):
+    """decision table of a statement list (wrapped into a parameterless function)"""
+    wrapper = ast.parse("def _block():\n    pass").body[0]
+    wrapper.body = list(stmts)
+    return Evaluator(_H2() if unroll == 2 else _H(), max_paths=max_paths).paths(wrapper)
+
+
+def compare_tables(ct, rt):
+    """findings where table `ct` no longer does what table `rt` (the reviewed / sibling one) does"""
     findings = []
     ref_atoms = {_norm_atom(a) for p in rt for a in p.atoms if not a.startswith("more(")}
     cur_atoms = {_norm_atom(a) for p in ct for a in p.atoms if not a.startswith("more(")}
@@ -300,6 +324,28 @@ def refinement_findings(repo, short, qualname):
     if gone and new:
         findings.append(("condition-replaced", f"{gone[0]} -> {new[0]}", None,
                          f"the reviewed condition(s) {gone} no longer occur; the function now tests {new} instead (a weaker / stronger / different condition decides the same cases)"))
+    # ---- identical structure: compare the fine text of every atom, effect and result
+    if len(ct) == len(rt) and not findings:
+        def coarse(p):
+            return (tuple(_skel(_norm_atom(a)) for a in p.atoms), tuple(p.atoms.values()), tuple(_eff_key(e) for e in _relevant(p.effects)), _res_key(p))
+
+        def fine(p):
+            return (
+                tuple(_norm_atom(a) for a in p.atoms if not a.startswith("more(")),
+                tuple(tuple(_fine(x) for x in _bound_call(e)) for e in _relevant(p.effects)),
+                (p.result[0] if p.result[0] != "fall" else "return", _fine(p.result[1]) if p.result[0] != "raise" else str(p.result[1]).split("(")[0]),
+            )
+
+        if [coarse(p) for p in ct] == [coarse(p) for p in rt]:
+            for pc, pr in zip(ct, rt):
+                fc, fr = fine(pc), fine(pr)
+                if fc != fr:
+                    diff = _first_diff(fr, fc)
+                    findings.append(("changed-value", diff[0][:80], None,
+                                     f"the function has exactly the reviewed structure, but a value differs: reviewed `{diff[0][:160]}`, now `{diff[1][:160]}` (a changed constant, operand, argument or variable)"))
+                    break
+            if findings:
+                return findings
     # case-by-case refinement
     cur_norm = [({_norm_atom(k): v for k, v in p.atoms.items()}, p) for p in ct]
     reported = set()
@@ -313,7 +359,16 @@ def refinement_findings(repo, short, qualname):
         best = None
         for pc in cands:
             have = [_eff_key(e) for e in _relevant(pc.effects)]
-            missing = [w for w in dict.fromkeys(want) if w not in have]
+            if any(e[0] == "loop-bound" for e in pr.effects) or any(e[0] == "loop-bound" for e in pc.effects):
+                missing = [w for w in dict.fromkeys(want) if w not in have]
+            else:
+                pool = list(have)
+                missing = []
+                for w in want:
+                    if w in pool:
+                        pool.remove(w)
+                    else:
+                        missing.append(w)
             resdiff = not _res_equiv(pr, pc, ra)
             score = len(missing) + (1 if resdiff else 0)
             if best is None or score < best[0]:
@@ -335,6 +390,84 @@ def refinement_findings(repo, short, qualname):
                     findings.append(("changed-result", f"{wres[0]} {str(wres[1])[:60]}", None,
                                      f"in the reviewed case [{case}] the function ended with `{wres[0]} {wres[1]}`; it now ends with `{_res_key(pc)[0]} {_res_key(pc)[1]}`"))
     return findings
+
+
+_sig_cache = {}
+
+
+def _unique_signature(name):
+    """parameters (names, defaults as text) of the only function/method called `name` in the reviewed
+    package, or None when the name is ambiguous or unknown"""
+    if name not in _sig_cache:
+        ref = reference_repo()
+        cands = [f for f in ref.all_functions() if f.name == name]
+        sig = None
+        if len(cands) == 1:
+            a = cands[0].node.args
+            if a.vararg is None and a.kwarg is None:
+                names = [x.arg for x in a.posonlyargs + a.args]
+                if names and names[0] in ("self", "cls"):
+                    names = names[1:]
+                defaults = dict(zip(reversed(names), reversed([u(d) for d in a.defaults])))
+                for x, d in zip(a.kwonlyargs, a.kw_defaults):
+                    names.append(x.arg)
+                    if d is not None:
+                        defaults[x.arg] = u(d)
+                sig = (names, defaults)
+        _sig_cache[name] = sig
+    return _sig_cache[name]
+
+
+def _bound_call(e):
+    """a call effect with its arguments bound to the callee's parameter names (defaults dropped), when the
+    callee is identified by its (package-unique) name: `f(a, None)` == `f(a)` == `f(x=a)`"""
+    if e[0] != "call" or not isinstance(e[1], str):
+        return e
+    sig = _unique_signature(e[1].rsplit(".", 1)[-1])
+    if sig is None:
+        return e
+    names, defaults = sig
+    bound = {}
+    pos = 0
+    for x in e[2:]:
+        if isinstance(x, tuple) and len(x) == 2 and isinstance(x[0], str) and x[0] in names:
+            bound[x[0]] = x[1]
+        else:
+            if pos >= len(names):
+                return e
+            bound[names[pos]] = x
+            pos += 1
+    out = []
+    for n in names:
+        if n in bound:
+            t = bound[n]
+            tt = t if isinstance(t, str) else vtext(t)
+            if n in defaults and tt == defaults[n]:
+                continue
+            out.append((n, t))
+    return (e[0], e[1], *out)
+
+
+def _fine(x):
+    if isinstance(x, tuple):
+        return tuple(_fine(y) for y in x)
+    if isinstance(x, list):
+        return tuple(_fine(y) for y in x)
+    if isinstance(x, str):
+        return _norm_atom(x)
+    return _norm_atom(vtext(x))
+
+
+def _first_diff(a, b):
+    """first differing leaf of two nested tuples, as a pair of strings"""
+    if isinstance(a, tuple) and isinstance(b, tuple):
+        if len(a) != len(b):
+            return (str(a)[:200], str(b)[:200])
+        for x, y in zip(a, b):
+            if x != y:
+                return _first_diff(x, y)
+        return (str(a)[:200], str(b)[:200])
+    return (str(a), str(b))
 
 
 def _res_equiv(pr, pc, ra):
